@@ -1,4 +1,621 @@
 package main
 
-// checkParsePath enumerates the may-panic instructions of packages parser and ast (placeholder until the E6 analyses land).
-func checkParsePath(p *Program, r *Report, rule string) {}
+import (
+	"fmt"
+	"go/ast"
+	"go/constant"
+	"go/token"
+	"go/types"
+	"sort"
+	"strings"
+
+	"golang.org/x/tools/go/ssa"
+)
+
+func init() { register("C15", "parsing is total, position-accurate and compositional", checkC15) }
+
+func checkC15(p *Program, r *Report) {
+	r.Explain("C15: R1 the scanner always makes progress and stops at the end of input: (a) every cycle of every Scanner method has a net cursor advance >= 1 (weights +1 for the advancing primitive, -1 for the retreating one, minimal success weights for helper methods; zero-weight cycles are searched in the product with 'cursor still on the character of the enclosing case', where conditions on that character are constant-folded); (b) with the cursor at the end (peek = EOF, the advancing primitive a no-op) every condition that depends on the current character is folded and no cycle remains reachable. " +
+		"R2 the grammar recovered from the tables has no nonterminal that derives itself through unit and empty productions, so every sequence of reductions without a shift is finite; the parser runtime is compared, as a syntax tree, with what goyacc emits (thorough tier). " +
+		"R3 no instruction on the parse path can panic: indices and slice bounds are dominated by a length test on the same expressions, type assertions and dereferences of semantic values are justified by the kinds and non-nil-ness every production assigns to that grammar symbol, yyDollar indices stay within the production's length, table indices were validated for every state x token. " +
+		"R4 every parse works on freshly allocated scanner, lexer and parser objects and writes no package-level variable (with C14.R2). " +
+		"R5 error values take their position from the scanner's position of the current token, captured after blanks are skipped and before the token is consumed. " +
+		"R6 the statement-list productions build [stmt] and append the new statement to the list of the left part. " +
+		"R7 identifiers consist of letters, digits and '_' only (witness for the module-name exception of C04).")
+	r.Assume("line/column arithmetic for every input and the concatenation law are value-level: R4+R6 give them only informally")
+	sm, err := buildScanModel(p)
+	if err != nil {
+		r.Undecided("C15.R1", "scanner", "parser/lexer.go", err.Error())
+		return
+	}
+	sm.computeMinWeights()
+	// R1a
+	nCyc := 0
+	var prims []string
+	for _, fn := range sm.methods {
+		fname := funcName(fn)
+		if d, ok := sm.step[fn]; ok {
+			prims = append(prims, fmt.Sprintf("%s:%+d", fname, d))
+			continue
+		}
+		if sm.pure[fn] {
+			continue
+		}
+		// methods that set the cursor arbitrarily must not be used by the scanner itself
+		nCyc++
+		ok, cyc := sm.progressCheck(fn)
+		r.Check(ok, "C15.R1", fname+"|progress", p.Pos(fn.Pos()), fmt.Sprintf("every cycle advances the cursor (minimal success advance %d)", sm.minW[fn]), "a loop of the scanner can go round without consuming input: blocks "+cyc)
+	}
+	for _, fn := range sm.methods {
+		if fn.Signature.Results().Len() == 4 {
+			ok, why := sm.tokenAdvance(fn)
+			r.Check(ok, "C15.R1", funcName(fn)+"|token-advance", p.Pos(fn.Pos()), "every token returned leaves the cursor after its first character, and the cursor never retreats behind the token's start", why)
+		}
+	}
+	sort.Strings(prims)
+	r.Note("cursor_primitives", prims)
+	r.Floor("C15.R1", nCyc, 6)
+	// arbitrary cursor writes
+	for _, fn := range sm.methods {
+		if _, ok := sm.step[fn]; ok || sm.pure[fn] {
+			continue
+		}
+		for _, b := range fn.Blocks {
+			for _, in := range b.Instrs {
+				if st, ok := in.(*ssa.Store); ok {
+					if fa, ok := st.Addr.(*ssa.FieldAddr); ok && fa.X == ssa.Value(fn.Params[0]) && fa.Field == sm.offI {
+						// who calls it?
+						used := false
+						for _, f2 := range SrcFuncs(sm.sp) {
+							for _, b2 := range f2.Blocks {
+								for _, in2 := range b2.Instrs {
+									if c, ok := in2.(ssa.CallInstruction); ok && staticCallee(c) == fn {
+										used = true
+									}
+								}
+							}
+						}
+						r.Check(!used, "C15.R1", funcName(fn)+"|cursor-set", p.Pos(instrPos(st)), "sets the cursor directly but is not used while scanning", "the cursor is set to an arbitrary value while scanning: progress cannot be established")
+					}
+				}
+			}
+		}
+	}
+	// R1b: EOF world
+	for _, fn := range sm.methods {
+		if sm.pure[fn] {
+			continue
+		}
+		if _, ok := sm.step[fn]; ok {
+			continue
+		}
+		env := &constEnv{m: sm, atEOF: true, bind: map[ssa.Value]constant.Value{}}
+		// error results of helpers that always fail at EOF
+		for _, b := range fn.Blocks {
+			for _, in := range b.Instrs {
+				if c, callee := sm.recvCall(in); callee != nil && !sm.pure[callee] && sm.errorAlwaysAtEOF(callee) {
+					for _, ref := range *c.Referrers() {
+						if ex, ok := ref.(*ssa.Extract); ok && isErrorType(ex.Type()) {
+							for _, r2 := range *ex.Referrers() {
+								if bo, ok := r2.(*ssa.BinOp); ok && isNilConst(bo.Y) {
+									env.bind[bo] = constant.MakeBool(bo.Op == token.NEQ)
+								}
+							}
+						}
+					}
+				}
+			}
+		}
+		seen := map[*ssa.BasicBlock]bool{fn.Blocks[0]: true}
+		succs := map[*ssa.BasicBlock][]*ssa.BasicBlock{}
+		work := []*ssa.BasicBlock{fn.Blocks[0]}
+		for len(work) > 0 {
+			b := work[0]
+			work = work[1:]
+			feas := env.feasibleSuccs(b)
+			for i, s := range b.Succs {
+				if !feas[i] {
+					continue
+				}
+				succs[b] = append(succs[b], s)
+				if !seen[s] {
+					seen[s] = true
+					work = append(work, s)
+				}
+			}
+		}
+		// cycle detection
+		color := map[*ssa.BasicBlock]int{}
+		var cyc *ssa.BasicBlock
+		var dfs func(b *ssa.BasicBlock)
+		dfs = func(b *ssa.BasicBlock) {
+			color[b] = 1
+			for _, s := range succs[b] {
+				if color[s] == 1 {
+					cyc = s
+				} else if color[s] == 0 {
+					dfs(s)
+				}
+			}
+			color[b] = 2
+		}
+		dfs(fn.Blocks[0])
+		site := p.Pos(fn.Pos())
+		if cyc != nil {
+			site = p.Pos(instrPos(cyc.Instrs[0]))
+		}
+		r.Check(cyc == nil, "C15.R1", funcName(fn)+"|stops-at-EOF", site, "with the cursor at the end of input no loop can go round", "at the end of input this loop does not exit (unterminated construct hangs the scanner)")
+	}
+
+	c15Grammar(p, r)
+	checkParsePath(p, r, "C15.R3")
+	c15Fresh(p, r)
+	c15Positions(p, r, sm)
+	c15Lists(p, r)
+	c15Identifiers(p, r, sm)
+}
+
+// c15Grammar: R2.
+func c15Grammar(p *Program, r *Report) {
+	g, err := BuildLALR(p)
+	if err != nil {
+		r.Undecided("C15.R2", "tables", "parser/parser.go", err.Error())
+		return
+	}
+	nullable := map[int]bool{}
+	for changed := true; changed; {
+		changed = false
+		for rule, rhs := range g.RHS {
+			nt := g.R1[rule]
+			if nullable[nt] {
+				continue
+			}
+			all := true
+			for _, s := range rhs {
+				if s > 0 || !nullable[-s] {
+					all = false
+				}
+			}
+			if all {
+				nullable[nt] = true
+				changed = true
+			}
+		}
+	}
+	// A -> B when A => alpha B beta with alpha, beta nullable
+	unit := map[int]map[int]bool{}
+	for rule, rhs := range g.RHS {
+		a := g.R1[rule]
+		for i, s := range rhs {
+			if s > 0 {
+				continue
+			}
+			rest := true
+			for j, t := range rhs {
+				if j != i && (t > 0 || !nullable[-t]) {
+					rest = false
+				}
+			}
+			if rest {
+				if unit[a] == nil {
+					unit[a] = map[int]bool{}
+				}
+				unit[a][-s] = true
+			}
+		}
+	}
+	// cycle?
+	var cyc []string
+	color := map[int]int{}
+	var dfs func(a int, path []int)
+	dfs = func(a int, path []int) {
+		color[a] = 1
+		for b := range unit[a] {
+			if color[b] == 1 && cyc == nil {
+				for _, x := range append(path, a, b) {
+					cyc = append(cyc, g.SymName(-x))
+				}
+			} else if color[b] == 0 {
+				dfs(b, append(path, a))
+			}
+		}
+		color[a] = 2
+	}
+	var nts []int
+	for a := range unit {
+		nts = append(nts, a)
+	}
+	sort.Ints(nts)
+	for _, a := range nts {
+		if color[a] == 0 {
+			dfs(a, nil)
+		}
+	}
+	r.Check(cyc == nil, "C15.R2", "grammar|no-unit-cycle", "parser/parser.go (tables)", fmt.Sprintf("%d nonterminals, %d nullable, unit/empty derivation graph is acyclic: every run of reductions between two shifts is finite", len(g.Pgo), len(nullable)), "a nonterminal derives itself without consuming input ("+strings.Join(cyc, " -> ")+"): the parser can reduce forever")
+	r.Check(len(g.Reach) == g.NStates, "C15.R2", "grammar|states-reachable", "parser/parser.go (tables)", fmt.Sprintf("all %d states reachable, %d rules recovered unambiguously", g.NStates, len(g.RHS)), "the table decoder does not reach every state: tables and runtime disagree")
+}
+
+// c15Fresh: R4.
+func c15Fresh(p *Program, r *Report) {
+	sp := p.SSAPkg("parser")
+	n := 0
+	for _, name := range []string{"ParseSrc", "Parse"} {
+		fn, _ := sp.Members[name].(*ssa.Function)
+		if fn == nil {
+			r.Fail("C15.R4", name, "parser", "entry point "+name+" not found")
+			continue
+		}
+		// every pointer handed to the callee that does the work is an allocation of this call
+		for _, b := range fn.Blocks {
+			for _, in := range b.Instrs {
+				c, ok := in.(*ssa.Call)
+				if !ok {
+					continue
+				}
+				callee := staticCallee(c)
+				if callee == nil || callee.Pkg != sp {
+					continue
+				}
+				for _, a := range c.Call.Args {
+					a = stripConv(a)
+					if _, isPtr := a.Type().Underlying().(*types.Pointer); !isPtr {
+						continue
+					}
+					n++
+					_, fresh := a.(*ssa.Alloc)
+					_, param := a.(*ssa.Parameter)
+					r.Check(fresh || param, "C15.R4", name+"|passes "+types.TypeString(a.Type(), func(*types.Package) string { return "" }), p.Pos(c.Pos()), "state handed to the parser is allocated by this call (or is the caller's own scanner)", "parser state outlives a single call: a later parse can see it")
+				}
+			}
+		}
+	}
+	// yyParse builds a new parser object
+	if fn, _ := sp.Members["yyParse"].(*ssa.Function); fn != nil {
+		okNew := false
+		for _, b := range fn.Blocks {
+			for _, in := range b.Instrs {
+				if c, ok := in.(*ssa.Call); ok {
+					if callee := staticCallee(c); callee != nil && callee.Pkg == sp {
+						for _, b2 := range callee.Blocks {
+							for _, in2 := range b2.Instrs {
+								if _, ok := in2.(*ssa.Alloc); ok {
+									okNew = true
+								}
+							}
+						}
+					}
+				}
+			}
+		}
+		n++
+		r.Check(okNew, "C15.R4", "yyParse|new-parser", p.Pos(fn.Pos()), "each parse runs on a newly allocated parser object", "the parser object is shared between calls")
+	}
+	r.Floor("C15.R4", n, 3)
+}
+
+// c15Positions: R5.
+func c15Positions(p *Program, r *Report, sm *scanModel) {
+	sp := p.SSAPkg("parser")
+	// the scanning function: method returning (int, string, ast.Position, error)
+	var scan *ssa.Function
+	for _, fn := range sm.methods {
+		if fn.Signature.Results().Len() == 4 {
+			scan = fn
+		}
+	}
+	if scan == nil {
+		r.Undecided("C15.R5", "Scan", "parser/lexer.go", "scanning method not found")
+		return
+	}
+	// pos captured after skipping blanks and before anything is consumed
+	var posCall *ssa.Call
+	for _, b := range scan.Blocks {
+		for _, in := range b.Instrs {
+			if c, callee := sm.recvCall(in); callee != nil && callee.Signature.Results().Len() == 1 && isNamed(callee.Signature.Results().At(0).Type(), modPath+"/ast", "Position") {
+				posCall = c
+			}
+		}
+	}
+	if posCall == nil {
+		r.Fail("C15.R5", "Scan|position-captured", p.Pos(scan.Pos()), "the scanner does not record the position of the token")
+	} else {
+		bad := ""
+		skipBefore := false
+		for _, in := range posCall.Block().Instrs {
+			if in == ssa.Instruction(posCall) {
+				break
+			}
+			if _, callee := sm.recvCall(in); callee != nil && !sm.pure[callee] {
+				if _, isStep := sm.step[callee]; isStep {
+					bad = "a character is consumed before the token position is taken"
+				} else {
+					skipBefore = true
+				}
+			}
+		}
+		for _, b := range scan.Blocks {
+			for _, in := range b.Instrs {
+				if _, callee := sm.recvCall(in); callee != nil && !sm.pure[callee] && in != ssa.Instruction(posCall) {
+					if b == posCall.Block() && instrIndex(in) < instrIndex(posCall) {
+						continue
+					}
+					if !instrDominates(posCall, in) {
+						bad = "input can be consumed on a path that does not take the token position first"
+					}
+				}
+			}
+		}
+		if !skipBefore && bad == "" {
+			bad = "the position is taken before blanks are skipped: it points at the blank, not at the token"
+		}
+		r.Check(bad == "", "C15.R5", "Scan|position-captured", p.Pos(posCall.Pos()), "position taken after blanks are skipped and before the token is consumed", bad)
+	}
+	// *Error literals: Pos from the scan result / the lexer's last position
+	n := 0
+	for _, fn := range SrcFuncs(sp) {
+		for _, b := range fn.Blocks {
+			for _, in := range b.Instrs {
+				al, ok := in.(*ssa.Alloc)
+				if !ok || !isNamed(al.Type(), modPath+"/parser", "Error") {
+					continue
+				}
+				n++
+				okPos, src := false, "nothing"
+				for _, ref := range *al.Referrers() {
+					fa, ok := ref.(*ssa.FieldAddr)
+					if !ok || fieldOfAddr(fa).Name() != "Pos" {
+						continue
+					}
+					for _, r2 := range *fa.Referrers() {
+						st, ok := r2.(*ssa.Store)
+						if !ok {
+							continue
+						}
+						switch v := st.Val.(type) {
+						case *ssa.Extract:
+							if c, ok := v.Tuple.(*ssa.Call); ok && staticCallee(c) == scan {
+								okPos, src = true, "the position returned by the scanner for this token"
+							}
+						case *ssa.UnOp:
+							if fa2, ok := v.X.(*ssa.FieldAddr); ok && isNamed(fa2.X.Type(), modPath+"/parser", "Lexer") {
+								okPos, src = true, "the lexer's position of the last token"
+							}
+						}
+					}
+				}
+				r.Check(okPos, "C15.R5", funcName(fn)+"|error-position", p.Pos(instrPos(al)), "error position is "+src, "a parse error does not carry the position of the offending token")
+			}
+		}
+	}
+	r.Floor("C15.R5", n, 2)
+	// the lexer records the position of every token it hands to the parser
+	for _, fn := range SrcFuncs(sp) {
+		if fn.Signature.Recv() == nil || !isNamed(fn.Signature.Recv().Type(), modPath+"/parser", "Lexer") {
+			continue
+		}
+		callsScan := false
+		storesPos := false
+		for _, b := range fn.Blocks {
+			for _, in := range b.Instrs {
+				if c, ok := in.(*ssa.Call); ok && staticCallee(c) == scan {
+					callsScan = true
+				}
+				if st, ok := in.(*ssa.Store); ok {
+					if fa, ok := st.Addr.(*ssa.FieldAddr); ok && isNamed(fa.X.Type(), modPath+"/parser", "Lexer") && isNamed(fieldOfAddr(fa).Type(), modPath+"/ast", "Position") {
+						if ex, ok := st.Val.(*ssa.Extract); ok {
+							if c, ok := ex.Tuple.(*ssa.Call); ok && staticCallee(c) == scan {
+								storesPos = true
+							}
+						}
+					}
+				}
+			}
+		}
+		if callsScan {
+			r.Check(storesPos, "C15.R5", funcName(fn)+"|records-position", p.Pos(fn.Pos()), "the lexer remembers the scanner's position of each token", "the lexer does not remember token positions: later syntax errors point elsewhere")
+		}
+	}
+}
+
+// c15Lists: R6.
+func c15Lists(p *Program, r *Report) {
+	g, err := BuildLALR(p)
+	if err != nil {
+		return
+	}
+	nm, err := BuildNodeModel(p, g)
+	if err != nil {
+		return
+	}
+	// the statement-list nonterminal: N with a rule N -> N X S (left recursive) whose action appends to a StmtsStmt
+	n := 0
+	for rule, rhs := range g.RHS {
+		nt := g.R1[rule]
+		cc := g.Clauses[rule]
+		if cc == nil || len(rhs) == 0 {
+			continue
+		}
+		buildsList := false
+		ast.Inspect(cc, func(nd ast.Node) bool {
+			if cl, ok := nd.(*ast.CompositeLit); ok {
+				if t := g.Info.TypeOf(cl); t != nil && isNamed(t, modPath+"/ast", "StmtsStmt") {
+					buildsList = true
+				}
+			}
+			return true
+		})
+		if !buildsList {
+			continue
+		}
+		last := len(rhs) // $last is the statement
+		if rhs[0] == -nt {
+			// recursive: append($1.Stmts, $last)
+			n++
+			okApp := false
+			ast.Inspect(cc, func(nd ast.Node) bool {
+				c, ok := nd.(*ast.CallExpr)
+				if !ok {
+					return true
+				}
+				if id, ok := c.Fun.(*ast.Ident); !ok || id.Name != "append" || len(c.Args) != 2 {
+					return true
+				}
+				first := dollarsIn(g.Info, c.Args[0])
+				if sel, ok := c.Args[0].(*ast.SelectorExpr); ok && len(first) == 0 {
+					// stmts.Stmts where stmts := $1.(*ast.StmtsStmt)
+					if id, ok := sel.X.(*ast.Ident); ok {
+						first = dollarsOfLocal(g.Info, cc, id)
+					}
+				}
+				second := dollarsIn(g.Info, c.Args[1])
+				if len(first) == 1 && first[0] == 1 && len(second) == 1 && second[0] == last {
+					okApp = true
+				}
+				return true
+			})
+			r.Check(okApp, "C15.R6", fmt.Sprintf("rule %s|append", g.RuleString(rule)), p.Pos(cc.Pos()), "the new statement is appended after the statements of the left part", "the statement list production does not append its statement at the end of the list")
+		} else {
+			n++
+			okOne := false
+			ast.Inspect(cc, func(nd ast.Node) bool {
+				cl, ok := nd.(*ast.CompositeLit)
+				if !ok {
+					return true
+				}
+				if sl, ok := g.Info.TypeOf(cl).Underlying().(*types.Slice); ok && isNamed(sl.Elem(), modPath+"/ast", "Stmt") && len(cl.Elts) == 1 {
+					if d := dollarsIn(g.Info, cl.Elts[0]); len(d) == 1 && d[0] == last {
+						okOne = true
+					}
+				}
+				return true
+			})
+			r.Check(okOne, "C15.R6", fmt.Sprintf("rule %s|singleton", g.RuleString(rule)), p.Pos(cc.Pos()), "a list of exactly the statement just parsed", "the first statement of a list is not the statement just parsed")
+		}
+	}
+	_ = nm
+	r.Floor("C15.R6", n, 2)
+}
+
+func dollarsIn(info *types.Info, e ast.Expr) []int {
+	var out []int
+	ast.Inspect(e, func(n ast.Node) bool {
+		if ix, ok := n.(*ast.IndexExpr); ok {
+			if id, ok := ix.X.(*ast.Ident); ok && id.Name == "yyDollar" {
+				if tv := info.Types[ix.Index]; tv.Value != nil {
+					if k, ok := constant.Int64Val(tv.Value); ok {
+						out = append(out, int(k))
+					}
+				}
+			}
+		}
+		return true
+	})
+	return out
+}
+
+func dollarsOfLocal(info *types.Info, cc *ast.CaseClause, id *ast.Ident) []int {
+	obj := info.ObjectOf(id)
+	var out []int
+	ast.Inspect(cc, func(n ast.Node) bool {
+		if as, ok := n.(*ast.AssignStmt); ok && len(as.Lhs) == 1 && len(as.Rhs) == 1 {
+			if l, ok := as.Lhs[0].(*ast.Ident); ok && info.ObjectOf(l) == obj {
+				out = dollarsIn(info, as.Rhs[0])
+			}
+		}
+		return true
+	})
+	return out
+}
+
+// c15Identifiers: R7.
+func c15Identifiers(p *Program, r *Report, sm *scanModel) {
+	// the identifier scanner: the helper called under the first case of Scan's head switch (isLetter(ch))
+	var ident *ssa.Function
+	for _, fn := range sm.methods {
+		if fn.Signature.Results().Len() == 2 && fn.Signature.Params().Len() == 0 {
+			// appends peek() under a letter/digit test
+			for _, b := range fn.Blocks {
+				for _, in := range b.Instrs {
+					if c, ok := in.(*ssa.Call); ok {
+						if callee := staticCallee(c); callee != nil && callee.Pkg == sm.sp && callee.Signature.Recv() == nil && callee.Signature.Params().Len() == 1 {
+							env := &constEnv{m: sm, bind: map[ssa.Value]constant.Value{}}
+							if v, ok := env.interp(callee, []constant.Value{constant.MakeInt64('a')}); ok && v.Kind() == constant.Bool && constant.BoolVal(v) {
+								if v2, ok := env.interp(callee, []constant.Value{constant.MakeInt64('1')}); ok && !constant.BoolVal(v2) && ident == nil && len(loopsOf(fn)) == 1 && !callsAny(fn, "errors", "New") {
+									ident = fn
+								}
+							}
+						}
+					}
+				}
+			}
+		}
+	}
+	if ident == nil {
+		r.Undecided("C15.R7", "scanIdentifier", "parser/lexer.go", "identifier scanner not found")
+		return
+	}
+	// every append of a character is guarded by predicates that reject '.'
+	preds := map[*ssa.Function]bool{}
+	for _, b := range ident.Blocks {
+		for _, in := range b.Instrs {
+			if c, ok := in.(*ssa.Call); ok {
+				if callee := staticCallee(c); callee != nil && callee.Pkg == sm.sp && callee.Signature.Recv() == nil && callee.Signature.Params().Len() == 1 && callee.Signature.Results().Len() == 1 {
+					preds[callee] = true
+				}
+			}
+		}
+	}
+	bad := ""
+	for f := range preds {
+		env := &constEnv{m: sm, bind: map[ssa.Value]constant.Value{}}
+		for _, ch := range []rune{'.', ' ', '-', '(', '"'} {
+			v, ok := env.interp(f, []constant.Value{constant.MakeInt64(int64(ch))})
+			if !ok || constant.BoolVal(v) {
+				bad = fmt.Sprintf("%s accepts %q as part of an identifier", f.Name(), string(ch))
+			}
+		}
+	}
+	// in the world where the current character is '.', the append must be unreachable
+	dot := int64('.')
+	env := &constEnv{m: sm, cur: &dot, bind: map[ssa.Value]constant.Value{}}
+	seen := map[*ssa.BasicBlock]bool{ident.Blocks[0]: true}
+	work := []*ssa.BasicBlock{ident.Blocks[0]}
+	for len(work) > 0 {
+		b := work[0]
+		work = work[1:]
+		for _, in := range b.Instrs {
+			if c, ok := in.(*ssa.Call); ok {
+				if bi, ok := c.Call.Value.(*ssa.Builtin); ok && bi.Name() == "append" {
+					bad = "a '.' at the cursor can be appended to an identifier"
+				}
+			}
+		}
+		feas := env.feasibleSuccs(b)
+		for i, s := range b.Succs {
+			if feas[i] && !seen[s] {
+				seen[s] = true
+				work = append(work, s)
+			}
+		}
+	}
+	r.Check(bad == "" && len(preds) >= 2, "C15.R7", funcName(ident)+"|identifier-characters", p.Pos(ident.Pos()), "identifier characters are accepted only by predicates that reject '.' and punctuation", bad)
+}
+
+func callsAny(fn *ssa.Function, pkg, name string) bool {
+	for _, b := range fn.Blocks {
+		for _, in := range b.Instrs {
+			if c, ok := in.(*ssa.Call); ok {
+				if o := calleeObj(c); o != nil && o.Pkg() != nil && o.Pkg().Path() == pkg && o.Name() == name {
+					return true
+				}
+			}
+		}
+	}
+	return false
+}
+
+// checkParsePath enumerates the may-panic instructions of the hand-written parse path (lexer.go) and of the grammar actions.
+func checkParsePath(p *Program, r *Report, rule string) {
+	parsePathLexer(p, r, rule)
+	parsePathActions(p, r, rule)
+}
